@@ -34,6 +34,7 @@ MODULES = [
     "roles",
     "degrees",
     "siblings",
+    "lockstep",
 ]
 
 
